@@ -79,7 +79,7 @@ def gen_case(rng: random.Random, tier: str) -> dict:
             members.append({"name": name, "kind": "dir"})
             continue
         if r < 0.16:
-            kind, doc = "file", rng.choice(["bin", "exe", "png"])
+            kind, doc = "file", rng.choice(["bin", "exe", "png", "xml", "xpdl", "svg", "css", "js", "py", "ics", "vcf", "log", "yaml", "sql", "c", "sh"])
         elif r < 0.22:
             kind, doc = "file", rng.choice(["zip", "7z", "tgz"])
         else:
